@@ -91,13 +91,43 @@ def h_quadrature(B):
         B.eq(f"quadrature of x^{m} == n (T^{m})[0,0]", [np.asarray(est, dtype=object).reshape(-1)[0]], [2 * Tm[m][0, 0]])
 
 
+def h_quadrature_padded(B):
+    """order > rank of the Krylov space: lanczos_tridiag zero-pads the tridiagonal after a breakdown.  The estimator must
+    discard the padding (eigenvalue 0 with weight 0) and still be DEFINED: for T = [[a, 0], [0, 0]] and func = log it equals
+    n log(a), and no logarithm / division outside its domain is evaluated on the way (0 * log(0) is NaN in floats)."""
+    import importlib
+    from .. import jaxpr_interp as ji
+    from .c03 import _defined
+    lz = importlib.import_module("nifty.re.num.lanczos")
+    a = B.reals("a", ())
+    B.assume((a - 1e-3) > 0)
+    z = 0.0
+    T = np.array([[a, z], [z, z]], dtype=object if B.mode == "sym" else np.float64)
+    ctx = sc.Ctx.cur
+    n_side = len(ctx.side) if ctx is not None else 0
+    want = 2 * (np.log(np.array([a], dtype=object))[0] if B.mode == "sym" else float(np.log(a)))
+    n_side = len(ctx.side) if ctx is not None else 0
+
+    def run(T):
+        return lz.stochastic_logdet_from_lanczos(T[None], 2, func=jnp.log)
+    ji.NAN_EXACT[0] = True
+    try:
+        est = jcall(B, run, T, fork=True)
+    finally:
+        ji.NAN_EXACT[0] = False
+    est = np.asarray(est, dtype=object).reshape(-1)[0]
+    _defined(B, n_side, [np.array([est], dtype=object)], "zero-padded tridiagonal: the estimate is defined (finite; no logarithm of a discarded eigenvalue)")
+    if not (isinstance(est, float) and est != est):
+        B.eq("zero-padded tridiagonal: quadrature of log == n log(a)", [est], [want])
+
+
 def scenarios(tier, seed):
-    quick = [("tridiag", {"n": 2}), ("quadrature", {})]
+    quick = [("tridiag", {"n": 2}), ("quadrature", {}), ("quadrature_padded", {})]
     thorough = []          # dimension 3 does not finish within 40 minutes: not claimed
     return quick if tier == "quick" else quick + thorough
 
 
-HARNESSES = {"tridiag": h_tridiag, "quadrature": h_quadrature}
+HARNESSES = {"tridiag": h_tridiag, "quadrature": h_quadrature, "quadrature_padded": h_quadrature_padded}
 OPTS = {"quick": {"max_paths": 100, "budget_s": 1800, "jobs": 4, "branch_timeout_ms": 30000, "obl_timeout_ms": 120000},
         "thorough": {"max_paths": 400, "budget_s": 2400, "jobs": 4, "branch_timeout_ms": 60000, "obl_timeout_ms": 300000}}
 
@@ -110,7 +140,7 @@ META = {
                    "of A (same spectrum).  The ELBO clauses of the property are NOT claimed.",
     "functions_encoded": ["nifty.re.num.lanczos.{lanczos_tridiag,_lanczos_tridiag,_dense_tridiag,stochastic_logdet_from_lanczos,_gauss_unit,"
                           "_quadrature_from_eigh,_apply_f_safely}"],
-    "bounds": {"dimension": "2 (dimension 3 does not finish and is not claimed)", "order": "= dimension"},
+    "bounds": {"dimension": "2 (dimension 3 does not finish and is not claimed)", "order": "= dimension; quadrature also for a 2x2 tridiagonal zero-padded after a breakdown in step 1 (func = log)"},
     "stubs": ["jnp.linalg.eigh (LAPACK) = closed-form symmetric 2x2 eigendecomposition (ascending eigenvalues, orthonormal vectors)"],
     "outside": ["both estimate_evidence_lower_bound implementations (ARPACK eigsh, host code): the ELBO statements of the property are NOT covered",
                 "the Gauss-Radau variant with a prescribed node (_radau_unit) and the probe averaging of stochastic_lq_logdet", "order < dimension (extreme eigenvalues only approximately)", "round-off and loss of orthogonality"],
